@@ -346,7 +346,7 @@ def extract_name(arg: InstrArg) -> str | None:
     Starting with Python 3.11, some instructions use a tuple as argument. However, we
     sometimes just need the name part of the argument. This function handles both cases.
     If the argument is a str, it returns it directly. If it is a tuple, it returns the
-    second element of the tuple, which is expected to be the name.
+    last element of the tuple, which is expected to be the name.
 
     Args:
         arg: The argument from which to extract the name.
@@ -358,6 +358,9 @@ def extract_name(arg: InstrArg) -> str | None:
         case str(name):
             return name
         case (bool(), str(name)):
+            return name
+        case (bool(), bool(), str(name)):
+            # LOAD_SUPER_ATTR
             return name
         case _:
             return None
